@@ -370,6 +370,10 @@ pub fn match_coverage_cases() -> Vec<MatchCoverageCase> {
         ("int|[int|string]", vec!["1", "[1]", "[1, \"a\"]", "[]"], vec![vec!["int", "[int]", "[string]"], vec!["int", "[int|string]"], vec!["int", "[any]"], vec!["int|[int]", "[string]"]]),
         ("[int]|[string]", vec!["[1]", "[\"a\"]", "[]"], vec![vec!["[int]", "[string]"], vec!["[int]"], vec!["[int|string]"], vec!["[string]", "[any]"]]),
         ("(int, int)|(int, string)", vec!["(1, 2)", "(1, \"a\")"], vec![vec!["(int, int)", "(int, string)"], vec!["(int, int|string)"], vec!["(int, int)"], vec!["(int, any)"]]),
+        ("(int, int)|(int, int, int)", vec!["(1, 2)", "(1, 2, 3)"], vec![vec!["(int, int, int)", "(int, int)"], vec!["(int, int)", "(int, int, int)"], vec!["(int, int)"], vec!["(any, any)", "(any, any, any)"], vec!["(int, any)", "any"]]),
+        ("(int, int)|(int, int, int)|int", vec!["(1, 2)", "(1, 2, 3)", "7"], vec![vec!["(int, int, int)", "any"], vec!["int", "(int, int)", "(int, int, int)"], vec!["(int, int)", "int|(int, int, int)"]]),
+        ("any", vec!["(1, 2)", "(1, 2, 3)", "(1, (2, 3))", "((1, 2), 3)", "[1, 2]", "1"], vec![vec!["(int, int, int)", "(int, int)", "(int, (int, int))", "any"], vec!["(any, any)", "any"], vec!["((int, int), int)", "(int, any)", "any"], vec!["[int]", "(int, int)", "any"]]),
+        ("[(int, int)|(int, int, int)]", vec!["[(1, 2)]", "[(1, 2, 3)]", "[(1, 2), (1, 2, 3)]", "[]"], vec![vec!["[(int, int)]", "[(int, int, int)]", "[any]"], vec!["[(int, int, int)]", "[(int, int)]", "[(int, int)|(int, int, int)]"]]),
         ("[int|string]|string", vec!["\"s\"", "[1, \"a\"]", "[2]"], vec![vec!["[int]", "[string]", "string"], vec!["[int|string]", "string"], vec!["string", "[any]"]]),
         ("mut (int|string)", vec!["mut int|string 1", "mut int|string \"s\""], vec![vec!["mut int", "mut string"], vec!["mut (int|string)"], vec!["mut any"]]),
         ("[mut (int|string)]", vec!["[mut int|string 1]", "[]"], vec![vec!["[mut int]", "[mut string]"], vec!["[mut (int|string)]"]]),
